@@ -393,6 +393,7 @@ fn cmd_replay(args: &[String]) -> i32 {
         "pvote" => props::pvote::replay(rp),
         "pvtail" => props::pvote::replay_tail(rp),
         "pcap" => props::pvote::replay_pcap(rp),
+        "sccb" => props::pvote::replay_sccb(rp),
         "c15t" => {
             let seed: u64 = rp["seed"].as_str().and_then(|s| s.parse().ok()).unwrap_or(1);
             (0..20).find_map(|_| props::seq::torn_stat_round(seed).1)
